@@ -201,9 +201,11 @@ theorem mem_pairs (L J : Nat) (ij : Nat × Nat) (h : ij ∈ pairs L J) : ij.1 < 
   exact ⟨hi, hj⟩
 
 
-/-- what the model assumes of `mulfft`: the exact cyclic product of the word vectors modulo `F` -/
+/-- what the model needs of `mulfft`: the exact cyclic product modulo `F` of word vectors below
+`2^(64N)` (proved for the word-level model of `mulfft`: `cycFft_exact`) -/
 def ExactCyc (N : Nat) (cyc : Array Nat → Array Nat → Option (Array Nat)) : Prop :=
   ∀ x y : Array Nat, x.size = y.size → 0 < x.size → x.size ≤ 256 * N → (∃ m, x.size = 2 ^ m) →
+    (∀ i, coef x i < W ^ N) → (∀ i, coef y i < W ^ N) →
     ∃ z, cyc x y = some z ∧ z.size = x.size ∧
       ∀ i < x.size, coef z i = cycCoef x.size (coef x) (coef y) i % (W ^ N + 1)
 
@@ -253,8 +255,22 @@ theorem convolveModn_packed (cyc : Array Nat → Array Nat → Option (Array Nat
   have hqB : ∀ u, coef q u < W ^ stride := fun u => lt_of_lt_of_le (hq u) hnB
   obtain ⟨vp, hvp, hvps, hvpc⟩ := pack_eq N L A stride p (by rw [← hsize]; exact hps2) hcopy hpB
   obtain ⟨vq, hvq, hvqs, hvqc⟩ := pack_eq N L A stride q (by rw [← hsize]; exact hqs) hcopy hqB
+  have hBA : (W ^ stride) ^ A ≤ W ^ N := by
+    rw [← pow_mul]
+    apply Nat.pow_le_pow_right (by decide)
+    calc stride * A ≤ stride * (2 * A - 1) := Nat.mul_le_mul_left _ (by omega)
+      _ = (2 * A - 1) * stride := Nat.mul_comm _ _
+      _ ≤ N := hfit
+  have hbound : ∀ (r vr : Array Nat), (∀ u, coef r u < W ^ stride) → vr.size = L →
+      (∀ a < L, coef vr a = packVal A (W ^ stride) (coef r) a) → ∀ i, coef vr i < W ^ N := by
+    intro r vr hr hs hc i
+    by_cases hi : i < L
+    · rw [hc i hi]
+      unfold packVal
+      exact lt_of_lt_of_le (digits_of_sum (W ^ stride) A (fun j => coef r (i * A + j)) (fun j _ => hr _)).1 hBA
+    · rw [coef_ge _ _ (by omega)]; exact Nat.pow_pos (by decide)
   obtain ⟨z, hz, hzs, hzc⟩ := hcyc vp vq (by rw [hvps, hvqs]) (by rw [hvps]; exact hL)
-    (by rw [hvps]; exact hroots) (by rw [hvps]; exact hLp)
+    (by rw [hvps]; exact hroots) (by rw [hvps]; exact hLp) (hbound p vp hpB hvps hvpc) (hbound q vq hqB hvqs hvqc)
   rw [hvps] at hzs hzc
   unfold convolveModn
   rw [if_neg (by omega), if_neg hst]
@@ -385,8 +401,18 @@ theorem convolveModn_unpacked (cyc : Array Nat → Array Nat → Option (Array N
     ∃ res, convolveModn true cyc n k rinv N size logpack 0 p q reslen offset = some res ∧
       res.size = reslen ∧
       ∀ t < reslen, coef res t = cycCoef size (coef p) (coef q) (offset + t) * rinv % n := by
+  have hnW : n ≤ W ^ N := by
+    have h1 : 1 * (n * n) ≤ size * (n * n) := Nat.mul_le_mul_right _ hsz
+    have h2 : n ≤ n * n := Nat.le_mul_self n
+    have h3 : W ^ 16 ≤ W ^ N := Nat.pow_le_pow_right (by decide) hN
+    omega
+  have hbound : ∀ (r : Array Nat), (∀ u, coef r u < n) → ∀ i, coef (resize r size) i < W ^ N := by
+    intro r hr i
+    by_cases hi : i < size
+    · rw [coef_resize r size i hi]; exact lt_of_lt_of_le (hr i) hnW
+    · rw [coef_ge _ _ (by simp [resize]; omega)]; exact Nat.pow_pos (by decide)
   obtain ⟨z, hz, hzs, hzc⟩ := hcyc (resize p size) (resize q size) (by simp [resize]) (by simpa [resize] using hsz)
-    (by simpa [resize] using hroots) (by simpa [resize] using hLp)
+    (by simpa [resize] using hroots) (by simpa [resize] using hLp) (hbound p hp) (hbound q hq)
   have hrs : (resize p size).size = size := by simp [resize]
   rw [hrs] at hzs hzc
   unfold convolveModn
